@@ -190,7 +190,7 @@ pub fn run(ctx: &mut Ctx, replay: Option<&[String]>) {
     }
     // a matrix with more than 2^32 positions (70 000 x 70 000, a handful of ones): two positions whose linear indices r * ncols + c agree
     // modulo 2^32 (and modulo 2^16 of course) must stay different entries
-    for _ in 0..ctx.scale(4, 40) {
+    for _ in 0..ctx.scale(4, 8) {
         let nc = 66_000 + rng.below(8_000);
         let (r1, c1) = (rng.below(3_000), rng.below(nc));
         let t = r1 * nc + c1 + (1usize << 32);
